@@ -560,6 +560,7 @@ C01_EVAL_THEOREMS = [
     "C01.layouts_not_transparent_witness", "C01.witness_not_settled", "C01.witness_not_quiet",
     "C01.selOK_real", "C01.selOK_documented", "C01.exAlgs_PLCovers", "C01.Example.quiet",
 ]
+C17_MODULES = ["TaffyVerif.Props.C17", "TaffyVerif.Props.C01"]
 C17_THEOREMS = ["C17.dispatch_eq", "C17.hidden_mode_first", "C17.measure_only_childless_boxes", "C17.drivers_eq",
                 "C01.memo_eq_cachefree_output", "C01.outputs_transparent_exact"]
 
@@ -570,15 +571,66 @@ C16_EVAL_THEOREMS = [
     "C16.keysIn_preserved", "C16.chain_const", "C16.chain_const_total", "C16.chain_leaf_const", "C16.nodes_exist",
 ]
 
+_PAIRS_TRUSTED = [
+    "the whole-tree clause is NOT a theorem here: it is checked by sampling tree pairs on the real implementation "
+    "(fresh TaffyTree, rounding disabled, harness measure function treegen::measure); the predicate is evaluated twice, "
+    "by the Rust oracle in harness/src/pairs.rs and by Lean (Drv/Pairs.lean) on the layouts the implementation produced; "
+    "the Lean side also re-derives tree B from tree A on the serialised (non-grid) part of the style",
+    "grid templates, grid_auto_* and grid-row/column are not part of the tree line: that B carries the transformed/reset "
+    "grid fields is trusted to harness/src/pairs.rs",
+    "theorems about the modelled algorithms are to be added by the coordinator (placeholder obligation C02.slot_lt)",
+]
+
+PROPS["C05"] = {
+    "modules": C05_EVAL_MODULES + C17_MODULES, "theorems": C05_EVAL_THEOREMS + ["C17.dispatch_eq"],
+    "harness": "C05", "driver": "C05", "monitor": False,
+    "rule": "style trees of 2-12 nodes as for C04, with 1-3 extra non-root nodes forced to display:none (keeping their subtrees, "
+            "half of them with explicit grid-row/grid-column lines -5..6 / spans, some absolute, some with sizes and margins); for "
+            "EVERY non-root display:none node h: tree B = A with h's subtree replaced by a bare Style{display:None,..DEFAULT} leaf. "
+            "Predicate: (i) every node at or below a display:none node of A, and the replacement leaf in B, has an all-zero layout "
+            "(order free); (ii) every node outside h's subtree has the identical layout (all 20 numbers and order) in A and B. "
+            "Fixed first: hidden grid child with grid-row 5 in an auto-rows-30 grid (grid must stay 30 high; repaired defect) and a "
+            "display:none ROOT, recorded as a note (outside the quantifier). Non-trivial = the replaced subtree differed from the bare "
+            "leaf and was not itself below a hidden node; distinct = distinct transcripts.",
+    "trusted_base": _PAIRS_TRUSTED,
+    "assumptions": ["a display:none root is outside the quantifier: compute_root_layout writes the root's style padding/border/"
+                    "margin into its layout (size and location stay 0); see the note in the evidence"],
+    "level_text": "Theorems over the tree-level evaluator (Model/Eval.lean: compute_child_layout + compute_cached_layout + compute_hidden_layout, any cache implementation, dispatch arms extracted from the source), for every tree, state, input and fuel: hiddenLayout zeroes every layout and clears every cache of the subtree; the invariant 'every display:none child of a box-generating node has an all-zero own layout and everything strictly below a display:none node is all-zero' holds on a fresh tree and is preserved by every evaluation provided the container algorithms only write zero layouts to hidden children (AlgsPHZ); and if the container algorithms' programs do not depend on a hidden child's style beyond display:none (HiddenBlind), replacing a hidden subtree by any other hidden subtree (a bare leaf) yields equal outputs and equal layouts/caches everywhere outside hidden subtrees. On the real code both clauses are checked on generated tree pairs (flex, grid, block parents; hidden nodes with grid lines).",
+    "level_note": 'partial: AlgsPHZ and HiddenBlind are named hypotheses about the three container algorithms; they are discharged for the block model where recorded in Props/C05Block (when present) and otherwise validated by the tree-pair run on the implementation. Trusted: Lean kernel; Eval model (tied by the EVAL correspondence on leaf/block trees); extractor for the dispatch arms. Axioms: propext, Classical.choice, Quot.sound.',
+    "technique": 'Lean 4 simulation proof over the interaction-program evaluator + metamorphic tree pairs on the real TaffyTree',
+    "undischarged": ['AlgsPHZ / HiddenBlind for flexbox.rs and grid (unmodelled as programs): sampled by the tree pairs only'],
+}
+
+PROPS["C06"] = {
+    "modules": C06_EVAL_MODULES, "theorems": C06_EVAL_THEOREMS,
+    "harness": "C06", "driver": "C06", "monitor": False,
+    "rule": "style trees of 2-12 nodes as for C04, with 1-3 extra non-root nodes forced to position:absolute (random insets incl. "
+            "percentages and negatives, a quarter with explicit grid lines, a quarter with auto lines, a third with large sizes); for "
+            "EVERY non-root absolute node a with display != none: tree B = A with a's subtree replaced by a bare "
+            "Style{position:Absolute,..DEFAULT} leaf. Predicate: every node outside a's subtree has identical location, size, "
+            "scrollbar_size, border, padding, margin (content_size and order may differ). A mismatch with a grid parent and a non-auto "
+            "grid-row/column on a is the known finding c06-abs-grid-implicit-tracks; any other is a violation. Fixed first: abs child "
+            "with grid-row 5 in an auto-rows-30 grid (known finding) and large abs children in block and column-flex containers. "
+            "Non-trivial = the neutralised subtree differed from the bare leaf and was not below a hidden node.",
+    "trusted_base": _PAIRS_TRUSTED,
+    "assumptions": ["known finding c06-abs-grid-implicit-tracks: an absolutely positioned grid child's explicit lines create "
+                    "implicit tracks (attribution uses the grid-line fields, which only the harness sees)"],
+    "level_text": "Theorems over the tree-level evaluator, for every tree, state, input, fuel and each of the three cache implementations: if the container algorithms' programs are equivalent up to calls/set-layouts addressed to absolutely positioned children and up to the contentSize of the result (AbsBlind), then replacing an absolutely positioned box (style and subtree) by any other absolutely positioned box yields outputs equal up to contentSize and equal order, location, size, scrollbar, border, padding and margin at every node outside the absolute subtrees. On the real code the clause is checked on generated tree pairs; the grid size estimate's dependence on an absolute child's grid lines is the known finding.",
+    "level_note": 'partial: AbsBlind is a named hypothesis about the three container algorithms (not discharged for any concrete algorithm yet; validated by the tree-pair run). Known finding: grid (c06-abs-grid-implicit-tracks). Trusted: Lean kernel; Eval model. Axioms: propext, Classical.choice, Quot.sound.',
+    "technique": 'Lean 4 simulation-up-to proof over the interaction-program evaluator + metamorphic tree pairs on the real TaffyTree',
+    "undischarged": ['AbsBlind for block, flex and grid programs: sampled by the tree pairs only'],
+}
+
 HOOK_COMMITS = [
     "5207efe",
     "79decb2",
     "b64c8aa",
     "77857cc",
     "47836dd",
+    "a52c44b",
 ]
 
 _pending = "check not built yet in this revision of /verif (planned, see DESIGN.md §8)"
 NOT_APPLICABLE = {p: _pending for p in
-                  ["C01", "C04", "C05", "C06", "C09", "C12", "C16", "C17"]}
+                  ["C01", "C04", "C09", "C12", "C16", "C17"]}
 
